@@ -234,6 +234,14 @@ func main() {
 	for _, p := range pkgs {
 		if sp, ok := p.Imports["github.com/vedadiyan/sqlparser/v2"]; ok {
 			for _, gf := range sp.GoFiles {
+				// only the generated LALR tables / driver and the tokenizer: the AST types and their
+				// methods stay instrumented (genql mutates parsed statements - SetWith, USING -> ON -
+				// and a race on a shared AST must remain visible)
+				switch filepath.Base(gf) {
+				case "sql.go", "token.go", "keywords.go", "parser.go", "parsed_query.go", "tracked_buffer.go", "ast_format.go", "ast_format_fast.go":
+				default:
+					continue
+				}
 				b, err := os.ReadFile(gf)
 				if err != nil {
 					continue
